@@ -111,4 +111,9 @@ inductive JsonOutcome
   | otherError (cls : String)
   deriving Repr, Inhabited
 
+/-- exception classes of `json.loads` that are `ValueError`s (what the parsers' `except ValueError` catches besides
+`JSONDecodeError`): the int digit limit on huge literals, and undecodable bytes -/
+def isValueErrorClass (c : String) : Bool :=
+  c == "ValueError" || c == "UnicodeDecodeError" || c == "other:ValueError" || c == "other:UnicodeDecodeError"
+
 end Webauthn
